@@ -480,8 +480,9 @@ def gen_decorated(rng, base, labels=LABELS, defect=None):
         code = base[i]
         if hints and code.strip() == "":
             hints = []  # a blank code line cannot carry trailing hints (it would be an isolated hint)
-        lines.append(with_marker(rng, {"code": code, "pad": rng.choice([0, 0, 1, 3]), "hints": hints}))
-    blank = {"code": "", "pad": 0, "hints": []}
+        # pad = number of spaces between the code and its hint comment; 0: the comment is glued to the code (F45)
+        lines.append(with_marker(rng, {"code": code, "pad": rng.choice([1, 1, 1, 2, 4, 0, 0]), "hints": hints}))
+    blank = {"code": "", "pad": 1, "hints": []}
     if rng.random() < 0.3:  # blank lines at both ends of the text are trimmed before the hints are numbered
         lines = [dict(blank)] * rng.choice([0, 1, 2]) + lines + [dict(blank)] * rng.choice([0, 1, 3])
     return lines
@@ -510,8 +511,8 @@ def shrink_layout(layout, still_fails, budget=150):
             for k in range(len(l.get("hints", []))):
                 cands.append(best[:i] + [dict(l, hints=l["hints"][:k] + l["hints"][k + 1:])] + best[i + 1:])
         for i, l in enumerate(best):
-            if l.get("pad") or any(h.get("gap") or h.get("plus") or h.get("uni") for h in l.get("hints", [])):
-                cands.append(best[:i] + [dict(l, pad=0, hints=[dict(h, gap=0, plus=False, uni=False) for h in l.get("hints", [])])]
+            if l.get("pad", 1) != 1 or any(h.get("gap") or h.get("plus") or h.get("uni") for h in l.get("hints", [])):
+                cands.append(best[:i] + [dict(l, pad=1, hints=[dict(h, gap=0, plus=False, uni=False) for h in l.get("hints", [])])]
                              + best[i + 1:])
         for c in cands:
             budget -= 1
@@ -614,7 +615,7 @@ def stream_blank_ends(ctx, impl, drv, judge):
     of the stored listing: the answer must be that of the same program without those blank lines."""
     n = 80 if ctx.tier == "quick" else 800
     hits = 0
-    blank = {"code": "", "pad": 0, "hints": []}
+    blank = {"code": "", "pad": 1, "hints": []}
     for _ in range(n):
         rng = ctx.rng
         base = [rng.choice([c for c in CODE if c.strip() and c[0] != " "]) for _ in range(rng.randint(1, 3))]
@@ -646,6 +647,105 @@ def stream_blank_ends(ctx, impl, drv, judge):
                            "spec": exp, "how": "get_program(src) vs get_program of the same program without the blank end lines"},
             }, per_sig=1)
     ctx.dist("blank-ends:property-failures", hits)
+
+
+EMPTY_MARKERS = ["# paroxython:", "#paroxython:", "# Paroxython :", "#  PAROXYTHON:"]
+
+
+def with_empty_comments(src_lines, layout, choose):
+    """The text of a decorated program with EMPTY hint comments (`# paroxython:` followed by nothing or by spaces only)
+    written at the end of code lines that have no hint, and alone on lines of their own. An empty hint comment says
+    nothing: the answer of get_program must be that of the text without them. `choose(i, line)` returns None or
+    (glue, marker, trailing) for the i-th layout line; `choose(-1 - k, None)` for an empty comment alone on a line
+    before the k-th line (k = len: after the last one)."""
+    out = []
+    for i, (text, l) in enumerate(zip(src_lines, layout)):
+        alone = choose(-1 - i, None)
+        if alone is not None:
+            out.append(alone[0] + alone[1] + alone[2])
+        c = choose(i, l) if "code" in l and not l.get("hints") and l["code"].strip() else None
+        out.append(text if c is None else text + c[0] + c[1] + c[2])
+    alone = choose(-1 - len(layout), None)
+    if alone is not None:
+        out.append(alone[0] + alone[1] + alone[2])
+    return out
+
+
+def stream_glued_empty(ctx, impl, drv, judge):
+    """Hint comments GLUED to the code (`x = 1#paroxython:a`, F45) combined with hints alone on a line, on the first /
+    middle / last line; EMPTY hint comments (F46) at the end of the last line, of the first line, alone on a line, with
+    and without a final newline. Expected: what the hints say (C12_roundtrip through `c12.spec_decorate`), the empty
+    comments saying nothing; and the stored source never shows a hint marker."""
+    rng = ctx.rng
+    codes = ["x = 1", "y = 2", "print(x)"]
+    loose = {"sp1": 0, "caps": 0, "sp2": 0, "after": 0}      # `#paroxython:a`
+    loose2 = {"sp1": 1, "caps": 0, "sp2": 1, "after": 1}     # `# paroxython : a`
+    hint = lambda L, mark="one+": [{"mark": mark, "label": L, "plus": False, "uni": False, "gap": 0}]  # noqa
+    decos = [("plain", None, None), ("spaced", 1, None), ("glued", 0, None), ("glued", 0, loose), ("glued", 0, loose2),
+             ("tabbed", 1, None),  # a tab, not a space, between the code and the hint comment (written in the text below)
+             ("empty", (" ", "# paroxython:", ""), None), ("empty", (" ", "# paroxython:", "   "), None),
+             ("empty", ("", "#paroxython:", ""), None), ("empty", ("  ", "# Paroxython :", " "), None)]
+    cases = []
+    for n in (1, 2, 3):
+        combos = list(itertools.product(range(len(decos)), repeat=n))
+        if n == 3 and ctx.tier == "quick":
+            combos = rng.sample(combos, 40)
+        for combo in combos:
+            for iso in (None, 0, n, 1 if n > 1 else None):
+                if iso is None and combo.count(0) == n:
+                    continue
+                alones = (None, 0, n)
+                for alone in (alones if n == 1 or ctx.tier != "quick" else [rng.choice(alones)]):
+                    cases.append((n, combo, iso, alone))
+    todo = []
+    for n, combo, iso, alone in cases:
+        layout, empties, tabbed = [], {}, set()
+        for i, k in enumerate(combo):
+            kind, arg, marker = decos[k]
+            line = {"code": codes[i], "pad": 1, "hints": []}
+            if kind == "tabbed":
+                tabbed.add(codes[i])
+            if kind in ("spaced", "glued", "tabbed"):
+                line["pad"] = arg
+                line["hints"] = hint("lab%d" % i)
+                if marker:
+                    line["marker"] = marker
+            elif kind == "empty":
+                empties[i] = arg
+            layout.append(line)
+        if iso is not None:
+            layout.insert(iso, {"isolated": "whole", "indent": 0})
+            empties = {(i + 1 if i >= iso else i): v for i, v in empties.items()}
+        spec = drv.call("c12.spec_decorate", lines=layout)
+        exp = expected_of(spec) if spec["hygienic"] else None
+        src_lines = spec["src"].split("\n")
+        if len(src_lines) != len(layout) or exp is None:
+            ctx.dist("glued-empty:skipped")
+            continue
+        if alone is not None:
+            empties[-1 - (alone if alone == 0 else len(layout))] = ("", EMPTY_MARKERS[(n + alone) % 4], rng.choice(["", " ", "  "]))
+        src_lines = [l.replace(c + " #", c + "\t#", 1) if l.startswith(c + " #") else l for l in src_lines
+                     for c in [next((c for c in tabbed if l.startswith(c + " #")), "\0")]]
+        text_lines = with_empty_comments(src_lines, layout, lambda i, l: empties.get(i))
+        tag = "glued-empty:" + "+".join(sorted({decos[k][0] for k in combo})) + ("+isolated" if iso is not None else "")
+        for final_nl in ("", "\n"):
+            todo.append(("\n".join(text_lines) + final_nl, exp, tag))
+    models = drv.call("c12.get_program", srcs=[t[0] for t in todo])["r"]
+    for (src, exp, tag), m in zip(todo, models):
+        got = impl.get_program(src)
+        ctx.count("glued-empty", src, nontrivial=True)
+        ctx.dist(tag)
+        model = canon_model_program(m)
+        if got != model:
+            judge.report_disagreement("glued-empty", src, got, model)
+        if got != exp:
+            what = ("a hint comment glued to the code, or an empty hint comment, changes what get_program returns: "
+                    "the hints are not scheduled as they say (C12_roundtrip)")
+            if "exc" not in got and MARK in got.get("source", ""):
+                what = "the stored source still shows a hint comment (`# paroxython:`) once the hints are collected"
+            add_violation(ctx, {"what": what, "signature": None,
+                                "replay": {"kind": "glued-empty", "src": src, "impl": got, "model": model, "spec": exp,
+                                           "how": "get_program(src): .source/.addition/.deletion"}}, per_sig=3)
 
 
 def stream_unicode_linebreaks(ctx, impl, drv, judge):
@@ -700,7 +800,7 @@ def gen_hinted_file(rng):
         return ("kept", spelled({"isolated": L, "indent": 0}))
 
     def noise(text):
-        return ("noise", {"code": text, "pad": 0, "hints": []})
+        return ("noise", {"code": text, "pad": 1, "hints": []})
 
     out = []
     labels = rng.sample(["foo", "meta/topic/fun", "bar:baz", "l_1", "a/b", "été", "x.y"], 4)
@@ -733,7 +833,7 @@ def gen_hinted_file(rng):
             L = rng.choice(labels[1:])
             hints.append({"mark": rng.choice(["one+", "one+", "one-"]), "label": L, "plus": rng.random() < 0.4,
                           "gap": rng.choice([0, 0, 1])})
-        line = {"code": c, "pad": rng.choice([0, 1, 2]), "hints": hints}
+        line = {"code": c, "pad": rng.choice([1, 1, 2, 3, 0]), "hints": hints}
         out.append(("kept", spelled(line) if hints else line))
         nxt_indented = j + 1 < len(code) and code[j + 1][:1] == " "
         if rng.random() < 0.2 and not nxt_indented:
@@ -990,7 +1090,7 @@ def stream_end_to_end(ctx, impl, drv, judge, real_programs):
         clean = [(nm, s, e) for nm, spans in labels0 for (s, e, _p) in spans
                  if nm and (nm[0].isalnum() or nm[0] == "_") and not any(c.isspace() for c in nm)
                  and not nm.endswith("...") and not nm.endswith("…") and nm.isascii()]
-        code_lines = [{"code": c, "pad": 0, "hints": []} for c in base]
+        code_lines = [{"code": c, "pad": 1, "hints": []} for c in base]
         lines = code_lines
         isolated_at = []
         nonblank = [i for i, c in enumerate(base) if c.strip()]
@@ -1228,6 +1328,7 @@ def run(ctx):
                         ("layouts", lambda: stream_layouts(ctx, impl, drv, judge)),
                         ("decorated", lambda: stream_decorated(ctx, impl, drv, judge, real)),
                         ("blank-ends", lambda: stream_blank_ends(ctx, impl, drv, judge)),
+                        ("glued-empty", lambda: stream_glued_empty(ctx, impl, drv, judge)),
                         ("marker", lambda: stream_marker_spelling(ctx, impl, drv, judge)),
                         ("linebreak-like", lambda: stream_unicode_linebreaks(ctx, impl, drv, judge)),
                         ("files", lambda: stream_files(ctx, impl, drv, judge)),
@@ -1242,7 +1343,11 @@ def run(ctx):
         "character class of each fixed regex; layouts-bx: all texts of <= 3 (quick) / 4 lines whose lines are blank, code, "
         "code + hint comment or isolated hint comment over a 14-token pool incl. malformed tokens; decorated: random "
         "decorated programs built by the specification (decorate/events/balSpans) over synthetic and /repo/examples code "
-        "lines, 70% well-formed, 20% unbalanced, 10% tie; end-to-end: real programs decorated with deletions aimed at "
+        "lines, 70% well-formed, 20% unbalanced, 10% tie, the hint comment glued to the code (no space before #) on 2 lines "
+        "out of 7; glued-empty: hint comments glued to the code x hints alone on a line (before / between / after) on the "
+        "first / middle / last line, and EMPTY hint comments (4 spellings, 0-3 spaces after the colon) at the end of code "
+        "lines and alone on the first / last line, with and without a final newline — all 1- and 2-line programs, a sample "
+        "(quick) / all (thorough) of the 3-line ones; end-to-end: real programs decorated with deletions aimed at "
         "their computed labels, parsed with recorded regex/SQLite answers. Distinct non-trivial case = distinct input "
         "text that contains a hint marker (token streams: distinct non-empty input)."
     )
@@ -1257,7 +1362,9 @@ def run(ctx):
         "in it (no input is filtered out)",
     ]
     ctx.assumptions += [
-        "C12_roundtrip: code lines are single lines without any look-alike of the marker and without trailing white space; "
+        "C12_roundtrip: code lines are single lines without any look-alike of the marker and without trailing white space "
+        "(any number of spaces, or none, between the code and its hint comment); a hint comment carries at least one hint "
+        "(empty hint comments: C12_source_no_marker for every text, and the glued-empty stream); "
         "labels start with a word character, contain no white space and no `#`, do not end with an ellipsis; some code "
         "line is not blank; marks properly nested per label "
         "(LIFO reading); no label opened for addition and deletion on one line (the code closes the addition first)",
